@@ -50,8 +50,10 @@ func init() {
 				op.Op, op.Key = "update", 1+r.IntN(max(key, 1))
 			case k < 21:
 				op.Op, op.Key = "delete", 1+r.IntN(max(key, 1))
-			case k < 23:
+			case k < 22:
 				op.Op = "select"
+			case k < 23:
+				op.Op = []string{"select", "scratch-table"}[r.IntN(2)]
 			case k < 26:
 				op.Op = "read-conn"
 			case k < 27:
@@ -59,7 +61,7 @@ func init() {
 				op.Op, op.Key = "txn", key-1
 			case k < 28:
 				key += 2
-				op.Op, op.Key = "txn-set-wt", key-1
+				op.Op, op.Key = []string{"txn-set-wt", "txn-set-dl"}[r.IntN(2)], key-1
 			default:
 				op.Op = "advance"
 			}
@@ -105,7 +107,7 @@ func runC15Conn(x *Exec) {
 			}
 		}
 		base := T0.Add(24 * time.Hour) // explicit write times and deadlines live a day after the fake clock's start
-		fmtSec := func(t time.Time) string { return t.UTC().Format("2006-01-02 15:04:05") }
+		fmtSec := func(t time.Time) string { return t.UTC().Format("2006-01-02 15:04:05.999999999") } // fraction only when there is one
 		for oi, op := range p.Ops {
 			if x.Failed() || w.Viol != nil {
 				return
@@ -119,6 +121,11 @@ func runC15Conn(x *Exec) {
 					c.Step(fmt.Sprintf("advance:%d", int64(op.Secs)*int64(time.Millisecond)))
 				case "set-wt":
 					t := base.Add(time.Duration(op.Secs) * time.Second)
+					if op.Secs%4 == 3 {
+						// a write time between two whole seconds is accepted; what is accepted reads back
+						t = t.Add(time.Duration(op.Secs%1000) * time.Millisecond).Add(250 * time.Microsecond)
+						x.Probe("fractional-write-time-set")
+					}
 					if _, err := c.Exec("update s3db_conn set write_time=?", fmtSec(t)); err != nil {
 						x.Fail("C15-unexpected-error", "%s: %v", desc, err)
 						return
@@ -196,6 +203,68 @@ func runC15Conn(x *Exec) {
 						return
 					}
 					x.Probe("write-time-set-inside-transaction")
+				case "txn-set-dl":
+					// a deadline set in the middle of a transaction does not touch write_time: both statements carry the
+					// transaction's write time, and after COMMIT write_time is what it was before BEGIN
+					if !st[i].dl.IsZero() && st[i].dl.Before(time.Now()) {
+						return
+					}
+					firstWT := time.Now().UnixNano()
+					if !st[i].wt.IsZero() {
+						firstWT = st[i].wt.UnixNano()
+					}
+					dl := base.Add(time.Duration(op.Secs) * time.Second)
+					var err error
+					if _, err = c.Exec("BEGIN"); err == nil {
+						if _, err = c.Exec(fmt.Sprintf("insert into %s values (?,?)", ts[i]), op.Key, oi); err == nil {
+							if _, err = c.Exec("update s3db_conn set deadline=?", fmtSec(dl)); err == nil {
+								if _, err = c.Exec(fmt.Sprintf("insert into %s values (?,?)", ts[i]), op.Key+1, oi); err == nil {
+									_, err = c.Exec("COMMIT")
+								}
+							}
+						}
+						if err != nil {
+							c.Exec("ROLLBACK")
+						}
+					}
+					if err != nil {
+						x.Fail("C15-unexpected-error", "%s: %v", desc, err)
+						return
+					}
+					st[i].dl = dl
+					expectMod[i][op.Key], expectMod[i][op.Key+1] = firstWT, firstWT
+					live[i][op.Key], live[i][op.Key+1] = true, true
+					want := "null"
+					if !st[i].wt.IsZero() {
+						want = fmt.Sprintf("t:%q", fmtSec(st[i].wt))
+					}
+					rows, rerr := c.Query("select write_time from s3db_conn")
+					x.Check()
+					if rerr != nil || len(rows) != 1 || rows[0][0] != want {
+						x.Fail("C15-conn-readback", "%s: only the deadline was set inside the transaction; after COMMIT s3db_conn shows write_time %s (%v), before BEGIN it was %s", desc, RowsString(rows), rerr, want)
+						return
+					}
+					x.Probe("deadline-set-inside-transaction")
+				case "scratch-table":
+					// a second table on the same connection comes and goes; the connection's attributes and its other
+					// table are not its business
+					if !st[i].dl.IsZero() && st[i].dl.Before(time.Now()) {
+						return
+					}
+					sn := w.TableName(c.Name + "scr")
+					if _, err := c.Exec(c.CreateSQL(sn, TableOpts{Prefix: fmt.Sprintf("scr%d", i), Columns: "k primary key, a", EPN: p.EPN})); err != nil {
+						x.Fail("C15-unexpected-error", "%s: create: %v", desc, err)
+						return
+					}
+					if _, err := c.Exec("drop table " + sn); err != nil {
+						x.Fail("C15-unexpected-error", "%s: drop: %v", desc, err)
+						return
+					}
+					if _, err := c.Query("select * from " + ts[i] + " where k >= 0"); err != nil {
+						x.Fail("C15-deadline-leaked", "%s: after another table of this connection was dropped a SELECT fails although the deadline (%v) is not in the past: %v", desc, st[i].dl, err)
+						return
+					}
+					x.ProbeN("table-dropped-under-future-deadline", b2i(!st[i].dl.IsZero()))
 				case "read-conn":
 					rows, err := c.Query("select deadline, write_time from s3db_conn")
 					x.Check()
